@@ -89,7 +89,9 @@ LEVEL_TEXT["C12"] = ("Theorems over the stated pool model: per repetition the ma
 LEVEL_TEXT["C14"] = ("Theorems: the ranking is duplicate-free, sorted by size and exactly the masks with ≤ min(limit, m) bits (every m, limit); construction succeeds iff the rank table covers every id "
                      "(with decided witnesses of the two pre-fix defects); regret matching at a node yields a distribution supported on unused coalitions; the added regret is orthogonal to the "
                      "strategy; plus-clipping keeps regret ≥ 0; average strategy is a distribution with the same support rule; load∘save = id. By induction over every "
-                     "history of iterations with non-negative terminal values (tree_invariant, every n ≥ 2, every limit, plain / plus) these hold at every node of every reachable state. Tie: real GameRegretMinimizer vs the exact Rat model, structure exact, float32 numbers within 1e-5.")
+                     "history of iterations with non-negative terminal values (tree_invariant, every n ≥ 2, every limit, plain / plus) these hold at every node of every reachable state. Tie: real GameRegretMinimizer vs the exact Rat model, structure exact, float32 numbers within 1e-5. Scale equivariance (Props/Equivariance): for every c > 0 the whole history with terminal values × c gives the same current / cumulative / average strategies at every node and regrets × c "
+                     "(plain and plus; errors preserved) — the theorem behind the stream's tolerance-free metamorphic oracle; the same file proves positive homogeneity and additive-shift equivariance of the "
+                     "superadditive bounds and computers (sam is NOT shift-equivariant: kernel-decided counterexample), scale / shift invariance of the normal form with the exact side conditions, homogeneity of the gaps.")
 LEVEL_TEXT["C15"] = ("Theorems for every n and ordered field: the in-place singleton-by-singleton loop equals the closed form w = v − Σ singletons; w is superadditive, ≥ 0, monotone, so w/w(N) ∈ [0,1] "
                      "with singletons 0 and grand 1, superadditive again; w(N) = 0 ⇒ w ≡ 0; graph game and its table normalise to the same values; denormalize∘normalize = id. Tie: exact stream "
                      "(strings) in both representations + float stream over every generator family with the property clauses as oracle. 'To float rounding' is made precise by ICG.ApproxNormalize "
